@@ -20,9 +20,10 @@ pub trait Controller: Send + Sync + 'static {
     fn point(&self, site: &'static str, detail: u128, guard: Option<Guard<'_>>);
     /// Sync point inside an async task; the future resolves when released.
     fn apoint(&self, site: &'static str, detail: u128) -> Pin<Box<dyn Future<Output = ()> + Send>>;
-    /// The caller is about to spawn an OS thread that will call `thread_begin`.
-    fn expect_thread(&self, kind: &'static str);
-    fn thread_begin(&self, kind: &'static str);
+    /// The caller is about to spawn an OS thread that will call `thread_begin` with the
+    /// returned ticket (identity is decided at spawn time, not by arrival order).
+    fn expect_thread(&self, kind: &'static str) -> u64;
+    fn thread_begin(&self, kind: &'static str, ticket: u64);
     fn thread_end(&self);
     /// Non-blocking notification.
     fn event(&self, site: &'static str, detail: u128);
@@ -76,18 +77,19 @@ pub async fn apoint(site: &'static str, detail: u128) {
     }
 }
 
-pub fn expect_thread(kind: &'static str) {
-    if let Some(c) = controller() {
-        c.expect_thread(kind);
+pub fn expect_thread(kind: &'static str) -> u64 {
+    match controller() {
+        Some(c) => c.expect_thread(kind),
+        None => 0,
     }
 }
 
 pub struct ThreadScope(Option<Arc<dyn Controller>>);
 
-pub fn thread_scope(kind: &'static str) -> ThreadScope {
+pub fn thread_scope(kind: &'static str, ticket: u64) -> ThreadScope {
     let c = controller();
     if let Some(c) = &c {
-        c.thread_begin(kind);
+        c.thread_begin(kind, ticket);
     }
     ThreadScope(c)
 }
